@@ -22,6 +22,8 @@ package grpcsync
 
 import (
 	"sync/atomic"
+
+	"google.golang.org/grpc/internal/verifhook"
 )
 
 // Event represents a one-time event that may occur in the future.
@@ -36,6 +38,7 @@ type Event struct {
 // the Done channel has not been closed yet.
 func (e *Event) Fire() bool {
 	if e.fired.CompareAndSwap(false, true) {
+		verifhook.At("event.close", e)
 		close(e.c)
 		return true
 	}
